@@ -87,11 +87,14 @@ pub fn align_arena_counter(target: u32) -> bool {
 pub const ARENAS_PER_PROCESS: u32 = 1024;
 pub const PROCESSES_PER_RUN: u32 = 64;
 pub const RUN_WINDOW: u64 = 256;
+pub const ARENA_OFFSET: u32 = 1 << 20;
 
 /// The arena id the first arena of process `proc` of run `index` gets.
 pub fn arena_base(index: u64, proc_index: u32) -> u32 {
     let slot = (index % RUN_WINDOW) as u32;
-    (slot * PROCESSES_PER_RUN + (proc_index % PROCESSES_PER_RUN) + 1) * ARENAS_PER_PROCESS
+    // the offset leaves room for whatever the worker's main thread created while
+    // building the corpora (wit-parser uses id-arena too)
+    ARENA_OFFSET + (slot * PROCESSES_PER_RUN + (proc_index % PROCESSES_PER_RUN) + 1) * ARENAS_PER_PROCESS
 }
 
 #[derive(Debug, Clone)]
